@@ -16,6 +16,7 @@ import (
 	"runtime"
 	"strings"
 	"sync"
+	"sync/atomic"
 	"time"
 
 	"github.com/andres-erbsen/clock"
@@ -233,7 +234,18 @@ type H struct {
 
 	stopOnce sync.Once
 	stopDone chan struct{}
+
+	// Inconclusive is set when a call started by the harness did not reach the event loop
+	// within a minute (machine too busy): the case must be discarded, not judged.
+	Inconclusive bool
 }
+
+var inconclusive int32
+
+// TakeInconclusive reports (and clears) whether any harness of this process marked its run
+// inconclusive since the last call. Cases run one at a time, so a check's run function calls
+// it once per case: a violation found in an inconclusive run must be discarded.
+func TakeInconclusive() bool { return atomic.SwapInt32(&inconclusive, 0) == 1 }
 
 // Config configures New.
 type Config struct {
@@ -379,7 +391,14 @@ func (h *H) StartDownload(i int) *DownloadCall {
 		c.Err, c.CacheOK, c.CacheErr, c.returned = err, ok, cerr, true
 		c.mu.Unlock()
 	}()
-	WaitFor(2*time.Second, func() bool { return c.Returned() || len(h.VH.Pending()) > before })
+	// The call opens the torrent on disk before it reaches the loop. The harness moves on only
+	// when it has (or has returned): otherwise a later step would race with that disk access,
+	// an interleaving outside the serialized events these harnesses own. A machine too busy to
+	// get there marks the run inconclusive.
+	if !WaitFor(60*time.Second, func() bool { return c.Returned() || len(h.VH.Pending()) > before }) {
+		h.Inconclusive = true
+		atomic.StoreInt32(&inconclusive, 1)
+	}
 	return c
 }
 
@@ -677,14 +696,17 @@ func (h *H) StartRemove(i int) {
 		h.Sched.RemoveTorrent(h.Blobs[i].Digest)
 		close(returned)
 	}()
-	WaitFor(2*time.Second, func() bool {
+	if !WaitFor(60*time.Second, func() bool {
 		select {
 		case <-returned:
 			return true
 		default:
 		}
 		return len(h.VH.Pending()) > before || h.VH.Stopped()
-	})
+	}) {
+		h.Inconclusive = true
+		atomic.StoreInt32(&inconclusive, 1)
+	}
 }
 
 // StartStop calls Scheduler.Stop on its own goroutine and waits until the shutdown event is pending.
@@ -695,7 +717,10 @@ func (h *H) StartStop() {
 			h.Sched.Stop()
 			close(h.stopDone)
 		}()
-		WaitFor(2*time.Second, func() bool { return len(h.VH.Pending()) > before || h.VH.Stopped() })
+		if !WaitFor(60*time.Second, func() bool { return len(h.VH.Pending()) > before || h.VH.Stopped() }) {
+			h.Inconclusive = true
+			atomic.StoreInt32(&inconclusive, 1)
+		}
 	})
 }
 
